@@ -5,3 +5,8 @@ import RepidModel.Sched
 import RepidModel.Generated.Config
 import RepidModel.Pred.C19
 import RepidModel.Driver.Sched
+import RepidModel.Broker.InMemory
+import RepidModel.Broker.MemHistory
+import RepidModel.Pred.C01
+import RepidModel.Driver.State
+import RepidModel.Driver.Mem
